@@ -158,12 +158,23 @@ DeepShapes == <<
 PairShapes == <<
   Shape("p.str.list", Desc(<<Leaf, Msg("Root", <<Fld("Str", 1, "string"), Rep(Fld("Items", 2, "int32")), MsgF("Sub", 3, "Leaf")>>, <<>>)>>), BaseCfg),
   Shape("p.sorted", Desc(<<Leaf, Msg("Root", <<Fld("Zed", 1, "string"), InOneof(Fld("BranchA", 2, "string"), "Grp"),
-        Fld("Alpha", 3, "int32"), InOneof(Fld("BranchB", 4, "int32"), "Grp")>>, <<"Grp">>)>>), [BaseCfg EXCEPT !.sort = TRUE]) >>
+        Fld("Alpha", 3, "int32"), InOneof(Fld("BranchB", 4, "int32"), "Grp")>>, <<"Grp">>)>>), [BaseCfg EXCEPT !.sort = TRUE]),
+  \* ordinary fields NAMED like the fields of a map entry message ("value", "key") next to maps whose elements have the same /
+  \* another type: the element of a map is not the attribute "value" of the object being written
+  Shape("p.value.str", Desc(<<Msg("Root", <<Fld("value", 1, "string"), MapOf(Fld("Tags", 2, "string"))>>, <<>>)>>), BaseCfg),
+  Shape("p.value.obj", Desc(<<Leaf, Msg("Root", <<MsgF("value", 1, "Leaf"), MapOf(MsgF("Dict", 2, "Leaf"))>>, <<>>)>>), BaseCfg),
+  Shape("p.value.other", Desc(<<Leaf, Msg("Inner", <<Fld("Num", 1, "int32"), Fld("Flag", 2, "bool")>>, <<>>),
+        Msg("Root", <<MsgF("value", 1, "Leaf"), MapOf(MsgF("Dict", 2, "Inner"))>>, <<>>)>>), BaseCfg),
+  Shape("p.key.str", Desc(<<Msg("Root", <<Fld("key", 1, "string"), MapOf(Fld("Tags", 2, "string")), Rep(Fld("Items", 3, "string"))>>, <<>>)>>), BaseCfg) >>
 
 \* an excluded field: the Go field exists, the schema does not describe it (C05: left untouched)
 ResetExtraShapes == <<
   Shape("r.excluded", Desc(<<Leaf, Msg("Root", <<Fld("Str", 1, "string"), Fld("Extra", 2, "string"), MsgF("Sub", 3, "Leaf"), Rep(Fld("Items", 4, "int32"))>>, <<>>)>>),
-        [BaseCfg EXCEPT !.exclude = <<"Root.Extra", "Root.Items">>]) >>
+        [BaseCfg EXCEPT !.exclude = <<"Root.Extra", "Root.Items">>]),
+  \* an excluded field of a message embedded by value: its siblings are flattened into the root, the holder is never replaced
+  Shape("r.excl.embed", Desc(<<Msg("Inner", <<Fld("Num", 1, "int32"), Fld("Rev", 2, "string"), Fld("Str", 3, "string")>>, <<>>),
+        Msg("Root", <<Fld("Flag", 1, "bool"), NonNull(Embed(MsgF("Inner", 2, "Inner")))>>, <<>>)>>),
+        [BaseCfg EXCEPT !.exclude = <<"Inner.Rev">>]) >>
 
 \* schema flags and metadata never change what the converters do
 FlagShapes == <<
